@@ -806,6 +806,7 @@ Definition chain_cmd (st : dstate) (cmd : tok) (args : list tok) : option (dstat
     | Err _ _ => Some (st, [b "X invalid"])
     | Panic => Some (st, [b "X panic"])
     end
+  else if tok_is cmd "UPGRADE" then Some (st, [b "U scheduled"])   (* a software-upgrade plan: no custom-module state is involved *)
   else if tok_is cmd "ENDCHECK" then Some (upd_tx st None, [])     (* CheckTx / simulate: no effect on the committed or deliver state *)
   else if tok_is cmd "ENDSIM" then Some (upd_tx st None, [])
   else if tok_is cmd "CRASH" then
